@@ -7,8 +7,9 @@ Ev == TraceLog[l]
 IsEvent(e) == l <= TraceLen /\ Ev.e = e /\ l' = l + 1 /\ UNCHANGED n
 THost == IsEvent("Host") /\ HostOK(Ev)
 TWire == IsEvent("Wire") /\ WireOK(Ev)
+TExtract == IsEvent("Extract") /\ ExtractOK(Ev)
 TReset == IsEvent("Reset")
-TNext == THost \/ TWire \/ TReset
+TNext == THost \/ TWire \/ TExtract \/ TReset
 TraceSpec == TInit /\ [][TNext]_tvars
 TraceAccepted ==
     LET d == TLCGet("stats").diameter IN
